@@ -156,7 +156,7 @@ def gen_floats(ctx, rnd, cases):
         if not q or e % 32 == 0 or e in (1, 2046, 1023, 1075, 1076):
             dec.add((e << 52) | rnd.choice([0, 1, (1 << 52) - 1]) | sign)
             dec.add((e << 52) | rnd.getrandbits(52) | (sign ^ (1 << 63)))
-        for m in [0, 1, (1 << 52) - 1, 1 << 51][: 2 if q else 4] + [rnd.getrandbits(52) for _ in range(2 if q else 40)]:
+        for m in [0, 1, (1 << 52) - 1, 1 << 51][: 2 if q else 4] + [rnd.getrandbits(52) for _ in range(2 if q else 20)]:
             nodec.add((e << 52) | m | (rnd.getrandbits(1) << 63))
     for _ in range(3000 if q else 40000):           # moderate exponents: 2^-70 .. 2^70
         dec.add(((1023 + rnd.randint(-70, 70)) << 52) | rnd.getrandbits(52) | (rnd.getrandbits(1) << 63))
@@ -463,25 +463,47 @@ def record(c, r):
     raise ValueError(kind)
 
 
+SHARD_BYTES = 24 << 20      # JSON per TLC run: ~25 MB of records need ~5 GB of heap once deserialised
+
+
 def tlc_validate(ctx, recs, tag):
-    fr = ctx.path(tag + ".recs.ndjson")
-    vlib.write_ndjson(fr, recs)
-    r = ctx.tlc("C15Trace", "C15Trace.cfg", env={"VERIF_RECS": fr}, workers=vlib.NCPU, heap="16g", timeout=3000, tag=tag)
-    bad, notes, checked = [], [], None
-    for l in r["printed"]:
-        m = re.match(r'<<"BAD", (\d+), "([^"]*)", (-?\d+)>>', l)
-        if m:
-            bad.append((int(m.group(1)), m.group(2), int(m.group(3))))
-        m = re.match(r'<<"NOTE", (\d+), "([^"]*)">>', l)
-        if m:
-            notes.append((int(m.group(1)), m.group(2)))
-        m = re.match(r'<<"CHECKED", (\d+)>>', l)
-        if m:
-            checked = int(m.group(1))
-    if checked is None or r["error"] or r["rc"] != 0:
-        raise vlib.MachineryError("TLC validation failed (rc=%s)\n%s" % (r["rc"], r["out"][-4000:]))
-    ctx.states += r["states"]
-    ctx.transitions += r["transitions"]
+    """validate records with spec/C15Trace.tla; large sets go through several TLC runs ONE AFTER THE OTHER
+    (a 200 MB record file does not fit a 16 GB heap; parallel JVMs are pathologically slow here)"""
+    shards, cur, size = [], [], 0
+    for r in recs:
+        n = len(json.dumps(r, separators=(",", ":")))
+        if cur and size + n > SHARD_BYTES:
+            shards.append(cur)
+            cur, size = [], 0
+        cur.append(r)
+        size += n
+    if cur:
+        shards.append(cur)
+    bad, notes, checked = [], [], 0
+    for k, sh in enumerate(shards):
+        stag = tag if len(shards) == 1 else "%s-%02d" % (tag, k)
+        fr = ctx.path(stag + ".recs.ndjson")
+        vlib.write_ndjson(fr, sh)
+        r = ctx.tlc("C15Trace", "C15Trace.cfg", env={"VERIF_RECS": fr}, workers=vlib.NCPU, heap="12g", timeout=3000, tag=stag)
+        got = None
+        for l in r["printed"]:
+            m = re.match(r'<<"BAD", (\d+), "([^"]*)", (-?\d+)>>', l)
+            if m:
+                bad.append((int(m.group(1)), m.group(2), int(m.group(3))))
+            m = re.match(r'<<"NOTE", (\d+), "([^"]*)">>', l)
+            if m:
+                notes.append((int(m.group(1)), m.group(2)))
+            m = re.match(r'<<"CHECKED", (\d+)>>', l)
+            if m:
+                got = int(m.group(1))
+        if got is None or r["error"] or r["rc"] != 0:
+            raise vlib.MachineryError("TLC validation failed (rc=%s)\n%s" % (r["rc"], r["out"][-4000:]))
+        checked += got
+        ctx.states += r["states"]
+        ctx.transitions += r["transitions"]
+        os.remove(fr)
+        if len(shards) > 1:
+            ctx.log("TLC shard %d/%d: %d records" % (k + 1, len(shards), got))
     return bad, notes, checked
 
 
